@@ -72,6 +72,8 @@ def _custom_check(pid, cfg, tier, seed):
     t0 = time.time()
     _fresh_library_build()
     rc = V.check(pid, cfg, tier, seed)              # dev profile (overflow checks on): proofs + correspondence + evidence
+    if os.environ.get("C08_SKIP_RELEASE"):        # (mutation runs: one profile is enough to see a catch)
+        return rc
     breaks, bad, stats = _release_round(pid, cfg, tier, seed)
     evp = os.path.join(V.EVID, "%s.json" % pid)
     ev = json.load(open(evp))
@@ -134,7 +136,7 @@ CFG = {
                   "states the model visits and verifies on every entry that fee_for_input is the difference of two min_fee()); premises: the "
                   "builder's present inputs are a map (one entry per outpoint) and regular inputs, values well formed (sorted maps, quantities "
                   "< 2^64: what the public API builds); hook H1 (scripted gen_range) + extraction (ExtrOcamlBasic) + OCaml/Rust glue. No axioms.",
-    "theorems": ["C08_sound", "C08_sound_min_fee", "C08_sound_fee_model", "C08_largest_first_order", "C08_largest_first_minimal", "C08_largest_first_complete",
+    "theorems": ["C08_sound", "C08_sound_min_fee", "C08_sound_fee_model", "C08_largest_first_order", "C08_largest_first_minimal", "C08_largest_first_complete", "C08_lfma_complete",
                  "C08_swap_bookkeeping_refuted", "C08_duplicate_outputs_refuted", "C08_prestep_fee_refuted",
                  "C08_improve_overflow_refuted", "C08_offered_overlap_refuted", "C08_burn_not_covered_refuted",
                  "C08_fee_placeholder_refuted", "C08_judge_sound"],
